@@ -176,6 +176,63 @@ def strip_copy(e):
             continue
         return e
 
+def unroll_constant_loops(stmts: list) -> list:
+    """Unroll ``for x in (<constants>): body`` (also pairs of constants with a tuple target) and fold
+    f-strings / string concatenations that become constant, so that table-like code written as a
+    loop over names is analysed like its unrolled form."""
+    import copy as _copy
+
+    def const_items(it):
+        if isinstance(it, (ast.Tuple, ast.List)) and it.elts and all(isinstance(e, ast.Constant) or (isinstance(e, (ast.Tuple, ast.List)) and all(isinstance(x, ast.Constant) for x in e.elts)) for e in it.elts):
+            return it.elts
+        return None
+
+    class Fold(ast.NodeTransformer):
+        def __init__(self, binds):
+            self.binds = binds
+
+        def visit_Name(self, n):  # noqa: N802
+            if isinstance(n.ctx, ast.Load) and n.id in self.binds:
+                return ast.copy_location(ast.Constant(value=self.binds[n.id]), n)
+            return n
+
+        def visit_JoinedStr(self, n):  # noqa: N802
+            self.generic_visit(n)
+            parts = []
+            for v in n.values:
+                if isinstance(v, ast.Constant):
+                    parts.append(str(v.value))
+                elif isinstance(v, ast.FormattedValue) and isinstance(v.value, ast.Constant) and v.format_spec is None and v.conversion == -1:
+                    parts.append(str(v.value.value))
+                else:
+                    return n
+            return ast.copy_location(ast.Constant(value="".join(parts)), n)
+
+        def visit_BinOp(self, n):  # noqa: N802
+            self.generic_visit(n)
+            if isinstance(n.op, ast.Add) and isinstance(n.left, ast.Constant) and isinstance(n.right, ast.Constant) and isinstance(n.left.value, str) and isinstance(n.right.value, str):
+                return ast.copy_location(ast.Constant(value=n.left.value + n.right.value), n)
+            return n
+
+    out = []
+    for st in stmts:
+        items = const_items(st.iter) if isinstance(st, ast.For) and not st.orelse else None
+        if items is None:
+            out.append(st)
+            continue
+        for it in items:
+            binds = {}
+            if isinstance(st.target, ast.Name) and isinstance(it, ast.Constant):
+                binds[st.target.id] = it.value
+            elif isinstance(st.target, (ast.Tuple, ast.List)) and isinstance(it, (ast.Tuple, ast.List)) and len(st.target.elts) == len(it.elts) and all(isinstance(x, ast.Name) for x in st.target.elts):
+                binds = {x.id: c.value for x, c in zip(st.target.elts, it.elts)}
+            else:
+                out.append(st)
+                break
+            body = [ast.fix_missing_locations(Fold(binds).visit(_copy.deepcopy(b))) for b in st.body]
+            out.extend(unroll_constant_loops(body))
+    return out
+
 def _decorator_name(d: ast.expr) -> str:
     if isinstance(d, ast.Call):
         d = d.func
